@@ -1,4 +1,7 @@
 ENGINES = [
+    {"name": "E-states", "path": "mc/oracles.py (product automata) + mc/props/c12.py (model BFS + trace replay) + mc/runner.py",
+     "serves_properties": ["C06", "C12"],
+     "kind_free_text": "explicit-state search: product automata over graph x pattern, and BFS over operation histories with canonical state hashing whose every transition is replayed on the real implementation"},
     {"name": "E-inputs", "path": "mc/runner.py + mc/world.py + mc/oracles.py",
      "serves_properties": ["C14"],
      "kind_free_text": "stateless exhaustive enumeration of a bounded input/configuration world, every case executed on the real library, judged by a brute-force reference model written in plain Python"},
@@ -6,6 +9,14 @@ ENGINES = [
 NOT_APPLICABLE = []
 NOTES = "All checks are bounded exhaustive explorations (model-checking family) of the real code imported from /repo; see DESIGN.md. known_findings.json lists genuine defects (fixed / known)."
 CHECKS = [
+    {"id": "C06", "engine": "E-states", "level": "model_checking",
+     "technique": "explicit-state reachability in product automata (graph x pattern progress x flags) over the library's safe sequences; witnesses re-validated, negative verdicts cross-checked by brute-force walk enumeration",
+     "text": "Safety quantifies over all covers of X, an unbounded family of walks; the product automaton (node, matched prefix, seen-x) decides it exactly for every shape of the world and every trusted set X (all arcs / singletons / pairs / subsets), every slot pair (incompatibility), every zero- and one-fix of constructed models, DAG safe paths/sequences under 1 and 4 threads, and flow-safe paths against an exact rational cone test. Complete below the bound.",
+     "note": "Bounded: n<=4 (+named 5-6 node shapes) cyclic, n<=5 DAGs; flows weights<=3. Trusted: the safety lemma stated in DESIGN C06; Fraction arithmetic."},
+    {"id": "C12", "engine": "E-states", "level": "model_checking",
+     "technique": "BFS over a dictionary model of the solver wrapper (states deduplicated canonically); every model transition replayed as an operation history on the real SolverWrapper; min/max probing of the product and piecewise helpers on every grid point",
+     "text": "The wrapper's observable state after any operation sequence up to depth 5/6 (add variables, replace objective, queue fix / lower-bound, optimize, read values) is compared with a boring dictionary model at every optimize: column bounds read back from HiGHS, status, optimum, values. The helper encodings are probed for exactness (min = max = true product) on every admissible value pair for ub in 0..9 and fractional bounds.",
+     "note": "Bounded: <=2 variables, depth<=6, bounds from {0..3}; helpers: ub<=9, ranges within [0,6]. Trusted: HiGHS on <=12-variable models."},
     {"id": "C14", "engine": "E-inputs", "level": "exploration",
      "technique": "exhaustive enumeration of Eulerian multiplicity vectors x all adjacency orders, replayed on the real Hierholzer routine",
      "text": "Every Eulerian s-t multiplicity vector with entries <= B on every digraph shape of the world, under every per-node out-arc order (the routine's only nondeterminism), with noise and in multi-layer stacks, is fed to the real get_solution_walks(); the returned walk's arc multiset must equal the vector exactly. Exhaustive below the bound, so a splice/rounding bug that needs a particular shape+order cannot hide.",
